@@ -92,7 +92,7 @@ func (f *Fill) Call(s *slip.Scope, args slip.List, depth int) (result slip.Objec
 		}
 		result = slip.String(ra)
 	case slip.VectorLike:
-		end = checkStartEnd(s, start, end, seq.Length(), depth)
+		end = checkStartEnd(s, start, end, activeLength(seq), depth)
 		for i := start; i < end; i++ {
 			seq.Set(item, i)
 		}
